@@ -298,6 +298,22 @@ for ns in c0.LOCAL_NS_NAME_BY_ID:
     if not isinstance(pf, tuple) or any((not isinstance(p, str)) or not p.endswith(":") for p in pf):
         fail("core:Wtp.namespace_prefixes#every-prefix-ends-with-colon", f"ns {ns}: {pf}", {"ns": ns})
 c0.db_conn.close()
+# a page ADDED under a title spelled with underscores is looked up like any other (lookups treat underscores and
+# blanks alike, so what add_page stores must be found by them)
+cu = newctx(Path(TMP) / "u.sqlite")
+for title_, ns_, body_ in (("Template:u_v", 10, "b1"), ("w_x y", 0, "b2"), ("Module:m_n", 828, "b3")):
+    cu.add_page(title_, ns_, body_)
+    evaluations += 1
+    for spell in (title_, title_.replace("_", " ")):
+        pg = cu.get_page(spell, ns_)
+        if pg is None or pg.body != body_ or not cu.page_exists(spell, ns_):
+            fail("core:Wtp.get_page#returns-most-recently-added-row[title-added-with-underscores]",
+                 f"add_page({title_!r}, {ns_}, {body_!r}) then get_page({spell!r}, {ns_}) -> "
+                 f"{None if pg is None else (pg.title, pg.body)}, page_exists -> {cu.page_exists(spell, ns_)}: the title is stored "
+                 "verbatim while lookups replace underscores by blanks",
+                 {"ops": [["add", title_, ns_, body_], ["lookup", spell, ns_]]}, "known-deviation:underscore-title-stored-verbatim")
+            break
+cu.db_conn.close()
 import shutil
 shutil.rmtree(TMP, ignore_errors=True)
 emit({"evaluations": evaluations, "distinct_nontrivial": len(distinct),
